@@ -745,4 +745,177 @@ theorem serve_silent_timeout_closed (trees : List Tree) (s : Bytes) (evs : List 
   unfold serve
   exact serveLoop_silent trees 0 _ _ [] hroot ⟨rfl, Or.inr ⟨rfl, evs, rfl⟩⟩
 
+/-! ### a fragment, then silence until the sniff time-out fires -/
+
+/-- the connection after a fragment `d` has arrived and the sniff time-out has fired: `d` is
+    buffered, the rest undelivered, the socket reports the time-out from now on -/
+structure Stalled (d : Bytes) (st : St) : Prop where
+  buf : st.buffer = d
+  timed : st.timedOut = true
+  open_ : st.closed = false
+  nodirect : st.direct = false
+  noerr : st.lastErr = none
+
+/-- one matcher pass on a stalled connection sees `d.take want` and leaves it stalled -/
+theorem readFull_stalled {d : Bytes} (hd : d ≠ []) (st : St) (hS : Stalled d st) (want : Nat) (hw : want ≥ 1) (evs : List Ev) :
+    ∃ r, readFullSniffer (want + 1) (reset st true) want evs [] = .ok r ∧ r.bytes = d.take want ∧
+      Stalled d r.st ∧ r.evs = evs ∧ r.st.rem = st.rem ∧ r.st.deadline = st.deadline := by
+  obtain ⟨hb, ht, hc, hnd, hne⟩ := hS
+  have hlen : d.length ≥ 1 := List.length_pos_iff.mpr hd
+  -- first read: from the buffer
+  have h1 : sniffRead (reset st true) want evs =
+      .ok ⟨d.take want, none, { reset st true with bufferRead := (d.take want).length }, evs⟩ := by
+    unfold sniffRead
+    have : (reset st true).bufferSize > (reset st true).bufferRead := by simp [reset, hb]; omega
+    rw [if_pos this, if_neg (by simp [reset])]
+    simp [reset, hb, hne]
+  have hout : (d.take want) ≠ [] := by
+    cases d with
+    | nil => exact absurd rfl hd
+    | cons a l =>
+      cases want with
+      | zero => omega
+      | succ w => simp
+  unfold readFullSniffer
+  rw [if_neg (by simp; omega)]
+  simp only [List.length_nil, Nat.sub_zero]
+  rw [h1]
+  simp only [List.nil_append]
+  have hemp : (d.take want).isEmpty = false := by
+    cases hq : d.take want with
+    | nil => exact absurd hq hout
+    | cons a l => rfl
+  simp only [hemp, Bool.false_eq_true, if_false]
+  -- second iteration
+  by_cases hfull : (d.take want).length ≥ want
+  · cases want with
+    | zero => omega
+    | succ w =>
+      unfold readFullSniffer
+      rw [if_pos hfull]
+      refine ⟨_, rfl, rfl, ⟨by simp [reset, hb], by simp [reset, ht], by simp [reset, hc], by simp [reset, hnd], by simp [reset, hne]⟩, rfl, by simp [reset], by simp [reset]⟩
+  · cases want with
+    | zero => omega
+    | succ w =>
+      have hdl : d.length < w + 1 := by
+        simp [List.length_take] at hfull; omega
+      have htk : d.take (w + 1) = d := List.take_of_length_le (by omega)
+      unfold readFullSniffer
+      rw [if_neg hfull]
+      have h2 : sniffRead { reset st true with bufferRead := (d.take (w + 1)).length } (w + 1 - (d.take (w + 1)).length) evs =
+          .ok ⟨[], some .timeout, { reset st true with bufferRead := (d.take (w + 1)).length }, evs⟩ := by
+        unfold sniffRead
+        rw [if_neg (by simp [reset, hb, htk])]
+        simp [reset, srcRead, hc, ht]
+      simp only [h2, List.append_nil]
+      rw [if_neg hfull]
+      simp only [hout, List.length_pos_iff, ne_eq, not_false_eq_true, decide_true, Bool.true_and]
+      refine ⟨_, by simp; rfl, ?_, ?_, rfl, by simp [reset], by simp [reset]⟩
+      · simp [htk]
+      · exact ⟨by simp [reset, hb], by simp [reset, ht], by simp [reset, hc], by simp [reset, hnd], by simp [reset, hne]⟩
+
+/-- the matcher loop on a stalled connection: every matcher sees the fragment, the first one
+    that accepts it gets the connection -/
+theorem serveLoop_stalled {d : Bytes} (hd : d ≠ []) (trees : List Tree) (hdepth : ∀ t ∈ trees, t.maxDepth ≥ 1)
+    (i : Nat) (st : St) (hS : Stalled d st) (evs : List Ev) (views : List Bytes) :
+    ∃ r, serveLoop true trees i st evs views = .ok r ∧ r.route = routeOf trees d i := by
+  induction trees generalizing i st views with
+  | nil => exact ⟨_, rfl, rfl⟩
+  | cons t ts ih =>
+    obtain ⟨r, hr, rb, rS, re, _, _⟩ := readFull_stalled hd st hS t.maxDepth (hdepth t (by simp)) evs
+    simp only [serveLoop, matcherPass, hr, routeOf, Tree.matchInput, rb]
+    by_cases hm : t.matchBuf (List.take t.maxDepth d) true = true
+    · simp only [hm, if_true]
+      exact ⟨_, rfl, rfl⟩
+    · simp only [hm]
+      rw [re]
+      exact ih (fun t ht => hdepth t (by simp [ht])) (i + 1) r.st rS _
+
+/-- the first matcher pass when `n` bytes (fewer than the matcher wants) arrive and then the
+    sniff time-out fires: it sees those `n` bytes and the connection is stalled -/
+theorem readFull_first_fragment (s : Bytes) (n want : Nat) (hn : 1 ≤ n) (hns : n ≤ s.length) (hnw : n < want)
+    (evs : List Ev) :
+    ∃ r, readFullSniffer (want + 1) (reset (setDeadline { rem := s } true) true) want
+        (.deliver n :: .fail .timeout :: evs) [] = .ok r ∧
+      r.bytes = s.take n ∧ Stalled (s.take n) r.st ∧ r.evs = evs := by
+  have hs : s ≠ [] := by
+    intro h; subst h; simp at hns; omega
+  have hemp : s.isEmpty = false := by
+    cases s with
+    | nil => exact absurd rfl hs
+    | cons a l => rfl
+  have hmin : min (max n 1) want = n := by omega
+  have htake : (s.take n) ≠ [] := by
+    cases s with
+    | nil => exact absurd rfl hs
+    | cons a l =>
+      cases n with
+      | zero => omega
+      | succ m => simp
+  have hlen : (s.take n).length = n := by simp [List.length_take]; omega
+  cases want with
+  | zero => omega
+  | succ w =>
+    cases w with
+    | zero => omega
+    | succ w =>
+      -- first read: n bytes from the socket
+      have h1 : sniffRead (reset (setDeadline { rem := s } true) true) (w + 2) (.deliver n :: .fail .timeout :: evs) =
+          .ok ⟨s.take n, none, { (reset (setDeadline { rem := s } true) true) with
+                  rem := s.drop n, lastErr := none, buffer := s.take n, capNonzero := true }, .fail .timeout :: evs⟩ := by
+        unfold sniffRead
+        rw [if_neg (by simp [reset, setDeadline])]
+        simp [reset, setDeadline, srcRead, hemp, hmin, List.splitAt_eq, htake, hlen]
+        omega
+      have hbe : (s.take n).isEmpty = false := by
+        cases hq : s.take n with
+        | nil => exact absurd hq htake
+        | cons a l => rfl
+      unfold readFullSniffer
+      rw [if_neg (by simp)]
+      simp only [List.length_nil, Nat.sub_zero]
+      rw [h1]
+      simp only [List.nil_append, hbe, Bool.false_eq_true, if_false]
+      -- second read: the time-out
+      unfold readFullSniffer
+      rw [if_neg (by rw [hlen]; omega)]
+      have h2 : sniffRead { (reset (setDeadline { rem := s } true) true) with
+                  rem := s.drop n, lastErr := none, buffer := s.take n, capNonzero := true }
+            (w + 2 - (s.take n).length) (.fail .timeout :: evs) =
+          .ok ⟨[], some .timeout, { (reset (setDeadline { rem := s } true) true) with
+                  rem := s.drop n, lastErr := none, buffer := s.take n, capNonzero := true, timedOut := true }, evs⟩ := by
+        unfold sniffRead
+        rw [if_neg (by simp [reset, setDeadline])]
+        have hk : w + 2 - min n s.length ≠ 0 := by omega
+        simp [reset, setDeadline, srcRead, hk]
+      rw [h2]
+      simp only [List.append_nil]
+      rw [if_neg (by rw [hlen]; omega)]
+      refine ⟨_, by simp; rfl, rfl, ⟨rfl, rfl, rfl, rfl, rfl⟩, rfl⟩
+
+/-- `Listener.serve` when a fragment of `n ≥ 1` bytes (fewer than the first matcher reads)
+    arrives and the peer then pauses until the sniff time-out fires — whatever it sends later:
+    the connection is routed by the fragment alone. -/
+theorem serve_fragment_then_timeout (t : Tree) (ts : List Tree) (hdepth : ∀ u ∈ t :: ts, u.maxDepth ≥ 1)
+    (s : Bytes) (n : Nat) (hn : 1 ≤ n) (hns : n ≤ s.length) (hnw : n < t.maxDepth) (evs : List Ev) :
+    ∃ r, serve true (t :: ts) s (.deliver n :: .fail .timeout :: evs) = .ok r ∧
+      r.route = routeOf (t :: ts) (s.take n) 0 := by
+  obtain ⟨r1, h1, b1, S1, e1⟩ := readFull_first_fragment s n t.maxDepth hn hns hnw evs
+  have hd : s.take n ≠ [] := by
+    cases s with
+    | nil => simp at hns; omega
+    | cons a l =>
+      cases n with
+      | zero => omega
+      | succ m => simp
+  have htk : (s.take n).take t.maxDepth = s.take n := List.take_of_length_le (by simp [List.length_take]; omega)
+  unfold serve
+  simp only [if_true, serveLoop, matcherPass, h1, routeOf, Tree.matchInput, b1, htk]
+  by_cases hm : t.matchBuf (s.take n) true = true
+  · simp only [hm, if_true]
+    exact ⟨_, rfl, rfl⟩
+  · simp only [hm]
+    rw [e1]
+    exact serveLoop_stalled hd ts (fun u hu => hdepth u (by simp [hu])) 1 r1.st S1 evs _
+
 end IpcHub.Sniffer
